@@ -1612,11 +1612,10 @@ class Exec:
     def if_stmt(self, s, last, inlined):
         c = self.c
         g = self.is_guard(s) if c.kind == 'P' else None
-        if g is not None:
-            if c.stmts or c.guard is not None:
-                raise Untr('PGN test after other effects')
+        if g is not None and not c.stmts and c.guard is None:
             c.guard = g
             return
+        # a PGN test that is not the first effect (outputs are preset before it) is an ordinary early return
         # early return:  if (cond) return <const>;
         then = s['inner'][1]
         els = s['inner'][2] if len(s['inner']) > 2 else None
@@ -1884,7 +1883,13 @@ def translate_all(world, order):
         fn.ctx = None
         fn.id = len(fns)
         if fn.kind == 'A':
-            fn.err = 'Append function (reads and rewrites an existing message): outside the setter/parser IR'
+            fn.err = 'Append function (reads and rewrites an existing message): outside the setter/parser IR; hand-written model coq/Model/MsgAppendDefs.v'
+            try:
+                ex = Exec(world, f, 'S')            # the signature only (all parameters are inputs), for the harness dispatch
+                ex.setup()
+                fn.sigctx = ex.c
+            except Untr:
+                pass
         else:
             try:
                 ex = Exec(world, f, fn.kind)
@@ -2081,7 +2086,7 @@ def fn_meta(world, fn):
         mm = re.search(r'P[Gg][Nn](\d+)', fn.name)
         if mm:
             d['pgn'] = int(mm.group(1))
-    d['harness'] = getattr(sig, 'complete', False) and all(not (o['kind'] == 'text' and (o['size'] is None or 'expr' in o['size'])) for o in outs) and fn.kind in ('S', 'P')
+    d['harness'] = getattr(sig, 'complete', False) and all(not (o['kind'] == 'text' and (o['size'] is None or 'expr' in o['size'])) for o in outs) and fn.kind in ('S', 'P', 'A')
     return d
 
 
@@ -2135,6 +2140,9 @@ def cxx_harness(meta):
         args = ', '.join(['M'] + [('(char *)' + v if k == 'textnc' else v) for k, v, _ in d['params']])
         if d['kind'] == 'S':
             L.append('    %s(%s);' % (d['cxx'], args))
+        elif d['kind'] == 'A':
+            L.append('    bool r = %s(%s);' % (d['cxx'], args))
+            L.append('    outB(out, r);')
         else:
             L.append('    bool r = %s(%s);' % (d['cxx'], args))
             L.append('    outB(out, r);')
@@ -2164,6 +2172,7 @@ def load_world():
     for f in SRC_FILES:
         world.add(clang_dump(f, 'N2k'))
     world.add(clang_dump('NMEA2000.cpp', 'SetHeartbeat'))
+    world.add(clang_dump('N2kMessages.cpp', 'AppendSatelliteInfo'))
     return world
 
 
@@ -2392,6 +2401,18 @@ def parser_shape(stmts):
     return None
 
 
+def weak_guard_pgn(stmts):
+    for st in stmts:
+        if st[0] == 'OutI' and st[2][0] == 'Const':
+            continue
+        if st[0] == 'OutD' and st[2][0] == 'DConst':
+            continue
+        if st[0] == 'If' and st[1][0] == 'Ne' and st[1][1] == ('Pgn',) and st[1][2][0] == 'Const' and st[2] == [('Ret', ('Const', 0))] and st[3] == []:
+            return st[1][2][1]
+        return None
+    return None
+
+
 def gamma_of(world, fn, meta_d):
     """the argument ranges the round trip theorem assumes: the width the setter gives each integer argument (never more than its type)"""
     out = []
@@ -2423,6 +2444,7 @@ def gen_obligations_v(fns, meta, pairs, allmeta, world):
          'Import ListNotations.', 'Local Open Scope Z_scope.', '']
     status = {'rt': [], 'guard': [], 'rt_names': [], 'guard_names': []}
     gam_done = set()
+    weak = []
     for f in fns:
         if f.kind == 'S' and f.err is None:
             L.append('Definition gamma_%s : list argty := [%s].' % (f.cname, '; '.join(gamma_of(world, f, md[f.id]))))
@@ -2434,7 +2456,14 @@ def gen_obligations_v(fns, meta, pairs, allmeta, world):
         if f.err is not None:
             status['guard'].append({'fn': f.cname, 'status': 'untranslated'})
             continue
-        if f.ctx.guard is None:
+        wk = weak_guard_pgn(f.ctx.stmts) if f.ctx.guard is None else None
+        if wk is not None:
+            L.append('(* guard_%s : the PGN test comes after outputs have been preset; the function still returns false for every other PGN *)' % f.cname)
+            L.append('Example guard_%s : guard_check_weak p_%s %d = true.  Proof. vm_compute. reflexivity. Qed.' % (f.cname, f.cname, wk))
+            status['guard'].append({'fn': f.cname, 'status': 'proved-weak'})
+            status['guard_names'].append('guard_%s' % f.cname)
+            weak.append('(p_%s, %d)' % (f.cname, wk))
+        elif f.ctx.guard is None:
             L.append('(* guard_%s : the function does not start with a test of the PGN *)' % f.cname)
             L.append('Example guard_%s : guard_check p_%s %d = true.  Proof. vm_compute. reflexivity. Qed.' % (f.cname, f.cname, d.get('pgn') or 0))
             status['guard'].append({'fn': f.cname, 'status': 'no-guard'})
@@ -2493,6 +2522,8 @@ def gen_obligations_v(fns, meta, pairs, allmeta, world):
     gl = ['(p_%s, %d)' % (f.cname, f.ctx.guard) for f in fns if f.kind == 'P' and f.err is None and f.ctx.guard is not None]
     L.append('Definition guarded_parsers : list (parser * Z) := [\n  %s].' % ';\n  '.join(gl))
     L.append('Example rt_pairs_checked : forallb (fun q => match q with (s, p, g, m) => rt_check s p g m end) rt_pairs = true.  Proof. vm_compute. reflexivity. Qed.')
+    L.append('Definition weak_guarded_parsers : list (parser * Z) := [%s].' % '; '.join(weak))
+    L.append('Example weak_guarded_parsers_checked : forallb (fun q => guard_check_weak (fst q) (snd q)) weak_guarded_parsers = true.  Proof. vm_compute. reflexivity. Qed.')
     L.append('Example guarded_parsers_checked : forallb (fun q => guard_check (fst q) (snd q)) guarded_parsers = true.  Proof. vm_compute. reflexivity. Qed.')
     # ---- C15: one layout obligation per listed PGN against Spec/RefLayouts.v
     L.append('')
